@@ -532,6 +532,7 @@ func units(tier string) []runner.Unit {
 										continue
 									}
 									mu := &mut{dir: dir, conn: conn, seg: si, off: off, kind: kind}
+									u.Distinct(mu.String())
 									u.Explore(explore.Bound{}, sc.String()+" "+mu.String(), func(ctl *explore.Ctl) explore.Result {
 										r, _ := run(sc, mu, base.rec, ctl)
 										return r
@@ -556,6 +557,7 @@ func units(tier string) []runner.Unit {
 									continue
 								}
 								mu := &mut{dir: dir, conn: conn, seg: si, kind: kind}
+								u.Distinct(mu.String())
 								u.Explore(explore.Bound{}, sc.String()+" "+mu.String(), func(ctl *explore.Ctl) explore.Result {
 									r, _ := run(sc, mu, base.rec, ctl)
 									return r
@@ -570,7 +572,6 @@ func units(tier string) []runner.Unit {
 				for k, n := range labelCount {
 					u.Count("mutations in "+k, n)
 				}
-				u.DistinctN(0)
 				u.Sample(sc.String() + " " + (&mut{dir: "c2s", conn: 0, seg: 1, off: 40, kind: "flip7"}).String())
 			}})
 		}
